@@ -113,6 +113,21 @@ def family():
     for order in ([a1, a2], [a2, a1]):
         out.append((A.prog([], order + [entry([("n", INT)], INT, [A.decl("t", INT, C("a1", [V("n")])), A.decl("w", INT, C("a2", [V("t"), V("n")])),
                                                                   A.ret(B("+", B("+", V("w"), C("a1", [V("t")])), V("t")))])]), ints(1, 4)))
+    # a float literal / float value bound to an int parameter is converted (directly, and as the argument of a nested call)
+    kp = A.func("keep", [("n", INT)], FLOAT, A.block([A.ret(B("*", V("n"), A.lit_f(1, 1)))]))
+    dbl = A.func("dbl", [("q", INT)], INT, A.block([A.ret(B("*", V("q"), L(2)))]))
+    out.append((A.prog([], [kp, dbl, entry([("n", INT)], FLOAT, [A.decl("x", FLOAT, A.lit_f(27, 3)), A.decl("a", FLOAT, C("keep", [A.lit_f(11, 2)])), A.decl("b", FLOAT, C("keep", [V("x")])),
+                                                                  A.decl("c", FLOAT, C("keep", [C("dbl", [A.lit_f(7, 1)])])), A.decl("d", INT, C("dbl", [C("dbl", [B("+", V("x"), V("n"))])])),
+                                                                  A.ret(B("+", B("+", V("a"), B("*", V("b"), L(10))), B("+", B("*", V("c"), L(100)), B("*", V("d"), L(1000)))))])]), ints(0, 2)))
+    # one vector conversion against two scalar conversions: the candidate with fewer converted parameters runs
+    f4, i4 = A.vec("float", 4), A.vec("int", 4)
+    pa = A.func("pk", [("v", f4), ("a", INT), ("b", INT)], INT, A.block([A.ret(L(1))]))
+    pb = A.func("pk", [("v", i4), ("a", FLOAT), ("b", FLOAT)], INT, A.block([A.ret(L(2))]))
+    pc = A.func("pq", [("v", A.vec("float", 3)), ("a", INT), ("b", INT), ("c", INT)], INT, A.block([A.ret(L(1))]))
+    pd = A.func("pq", [("v", A.vec("int", 3)), ("a", FLOAT), ("b", FLOAT), ("c", INT)], INT, A.block([A.ret(L(2))]))
+    for order in ([pa, pb, pc, pd], [pd, pc, pb, pa]):
+        out.append((A.prog([], order + [entry([("n", INT)], INT, [A.decl("v", i4, A.cons(i4, [V("n"), L(2), L(3), L(4)])), A.decl("w", A.vec("int", 3), A.cons(A.vec("int", 3), [V("n"), L(2), L(3)])),
+                                                                  A.ret(B("+", B("*", C("pk", [V("v"), V("n"), L(5)]), L(10)), C("pq", [V("w"), V("n"), L(5), L(6)])))])]), ints(1, 3)))
     # overloads that differ in the number of parameters: a call reaches the one whose parameter count matches
     sc1 = A.func("sc", [("a", INT)], FLOAT, A.block([A.ret(B("*", V("a"), L(10)))]))
     sc2 = A.func("sc", [("a", INT), ("k", FLOAT)], FLOAT, A.block([A.ret(B("*", V("a"), V("k")))]))
